@@ -51,8 +51,9 @@ type dataReader struct {
 	r     *bufio.Reader
 	state int
 
-	limited bool
-	n       int64 // Maximum bytes remaining
+	limited  bool
+	n        int64 // Maximum bytes remaining
+	tooLarge bool  // ErrDataTooLarge has been returned
 
 	// connErr is the error that kept the connection from delivering the
 	// message up to its end marker, if any.
@@ -73,6 +74,12 @@ func newDataReader(c *Conn) *dataReader {
 }
 
 func (r *dataReader) Read(b []byte) (n int, err error) {
+	if r.limited && r.tooLarge {
+		// The backend reads on after the error (or the bufio.Reader or
+		// io.Copy it reads through does): the message stays too large, it
+		// must not come to a clean end once the end marker turns up.
+		return 0, ErrDataTooLarge
+	}
 	if r.limited {
 		if r.n <= 0 {
 			// The budget is used up. Keep running the state machine so
@@ -152,6 +159,7 @@ func (r *dataReader) Read(b []byte) (n int, err error) {
 			}
 		}
 		if r.limited && r.n <= 0 {
+			r.tooLarge = true
 			err = ErrDataTooLarge
 			break
 		}
